@@ -92,7 +92,12 @@ let tkind_of = function
   | A "errorstop" -> KErrorStop
   | _ -> failwith "tkind"
 
-let nkind_of = function A "and" -> NAnd | A "mf" -> NMatchFirst | A "or" -> NOr | A "each" -> NEach | _ -> failwith "nkind"
+let nkind_of = function
+  | A "and" -> NAnd | A "mf" -> NMatchFirst | A "or" -> NOr
+  | L (A "each" :: info) ->
+    (* per child: (mayReturnEmpty, __eq__ class of the child, __eq__ class of its operand) : tools/harness/dump.py each_info *)
+    NEach (List.map (function L [me; cs; co] -> (ba me, (nat_of_int (ia cs), nat_of_int (ia co))) | _ -> failwith "each info") info)
+  | _ -> failwith "nkind"
 
 let ekind_of = function
   | A "pass" -> EPass
